@@ -26,6 +26,9 @@ func propC09(c *Ctx) {
 	c.ruleInstanceIdentity()
 	c.ruleMemoCoverage("C09-MEMO-KEY-COVERS")
 	c.ruleC14ValidateFirst()
+	// the recursion guard must refuse only a file that is really on the stack: a set keyed by anything but the
+	// file's own name refuses legal splits (two files with one base name) or misses a cycle
+	c.ruleC14CycleGuard()
 }
 
 func (c *Ctx) ruleNoWriteAtSwitch() {
